@@ -38,9 +38,21 @@ def documenter_class(repo: Repo) -> str:
 
 def aggregator_class(repo: Repo) -> str:
     """The listener: the subclass of CMakeListener in cminx.aggregator."""
+    cands = []
     for ci in repo.classes.values():
-        if ci.module == "cminx.aggregator" and "CMakeListener" in ci.bases:
-            return ci.name
+        if ci.module != "cminx.aggregator":
+            continue
+        try:
+            is_listener = "CMakeListener" in ci.bases or any(k.name == "CMakeListener" or "CMakeListener" in k.bases
+                                                             for k in repo.mro(ci.name))
+        except Exception:
+            is_listener = "CMakeListener" in ci.bases
+        if is_listener:
+            cands.append(ci)
+    # the listener that is instantiated is the most derived one (a private base class may carry part of the state)
+    leaves = [c for c in cands if not any(c.name in o.bases for o in cands if o is not c)]
+    if leaves:
+        return leaves[0].name
     raise AnalysisError("anchor vanished: no CMakeListener subclass in cminx.aggregator")
 
 
@@ -76,22 +88,30 @@ def listener_lists(repo: Repo, cls: str) -> Dict[str, str]:
         raise AnalysisError(f"{cls} has no __init__")
     roles: Dict[str, str] = {}
     pushes: Dict[str, List[str]] = {}
-    for fn in ci.methods.values():
+    # the class and its hand-written base classes (part of the state may live in a private base)
+    try:
+        family = [k for k in repo.mro(cls) if k.module == ci.module]
+    except Exception:
+        family = [ci]
+    all_fns = [fn for k in family for fn in k.methods.values()]
+    inits = [k.methods["__init__"] for k in family if "__init__" in k.methods]
+    for fn in all_fns:
         for c in calls_in(fn):
             if isinstance(c.func, ast.Attribute) and c.func.attr == "append" and c.args:
                 recv = c.func.value
                 if isinstance(recv, ast.Attribute) and isinstance(recv.value, ast.Name) and recv.value.id == "self":
                     pushes.setdefault(recv.attr, []).append(norm(c.args[0]))
     ann: Dict[str, str] = {}
-    for n in ast.walk(init):
-        if isinstance(n, ast.AnnAssign) and isinstance(n.target, ast.Attribute):
-            ann[n.target.attr] = norm(n.annotation)
+    for init_ in inits:
+        for n in ast.walk(init_):
+            if isinstance(n, ast.AnnAssign) and isinstance(n.target, ast.Attribute):
+                ann[n.target.attr] = norm(n.annotation)
     for attr_name, vals in pushes.items():
         joined = " ".join(vals)
         a = ann.get(attr_name, "")
         if "DefinitionCommand" in joined or "DefinitionCommand" in a:
             roles["defstack"] = attr_name
-        elif "ParserRuleContext" in a or all(v.startswith("ctx") for v in vals):
+        elif "ParserRuleContext" in a or all(v.startswith("ctx") or v in ("context", "node") for v in vals):
             roles["consumed"] = attr_name
         elif "ClassDocumentation" in a and "None" in a or "None" in vals:
             roles["classstack"] = attr_name
